@@ -242,4 +242,3 @@ func pipeRun(args []string) error {
 		return nil
 	})
 }
-
